@@ -1,4 +1,5 @@
 import S3V.Thm.SigV4Tamper
+import S3V.Thm.SigV4Perm
 /-!
 # C05 — SigV4 header authentication accepts exactly the correctly signed requests (property theorems only)
 
@@ -123,6 +124,12 @@ theorem C05_header_rewrites_invariant {r r' : SigV4Spec.Request} (hm : r.method 
     SigV4Spec.canonicalRequest r = SigV4Spec.canonicalRequest r' :=
   canonical_of_view_eq (view_headers_congr hm hp hq hs hpl hh)
 
+/-- query parameters are signed as a multiset: sending them in another order keeps the canonical request -/
+theorem C05_query_order_invariant {r r' : SigV4Spec.Request} (hm : r.method = r'.method) (hp : r.path = r'.path)
+    (hq : r.query.Perm r'.query) (hh : r.headers = r'.headers) (hs : r.signedHeaders = r'.signedHeaders)
+    (hpl : r.payload = r'.payload) : SigV4Spec.canonicalRequest r = SigV4Spec.canonicalRequest r' :=
+  canonical_of_view_eq (view_of_query_perm hm hp hq hh hs hpl)
+
 /-- white space added before or after a header value does not change its canonical value -/
 theorem C05_edge_whitespace_invariant (ws₁ ws₂ v : Bytes) (h₁ : ∀ c ∈ ws₁, SigV4Spec.isWs c = true)
     (h₂ : ∀ c ∈ ws₂, SigV4Spec.isWs c = true) : SigV4Spec.trimAll (ws₁ ++ v ++ ws₂) = SigV4Spec.trimAll v :=
@@ -143,6 +150,16 @@ def exampleReq : Req :=
     signed := [b!"x-amz-date", b!"host", b!"x-amz-meta-a"], payload := .unsigned }
 
 example : wf exampleReq = true := by decide
+
+/-- an HTTP/2 request without `host` line whose `:authority` is signed as `host`, with the usual headers: inside
+    `wfHeaderAuth` -/
+def exampleCtx : Ctx :=
+  { http2 := true, authority := some b!"s3.example.com", method := b!"GET", path := b!"/bkt/k", qs := [(b!"x-id", b!"GetObject")],
+    hs := [(b!"authorization", b!"AWS4-HMAC-SHA256 Credential=AK/20130524/us-east-1/s3/aws4_request, SignedHeaders=host;x-amz-content-sha256;x-amz-date, Signature=00"),
+           (b!"x-amz-content-sha256", b!"UNSIGNED-PAYLOAD"), (b!"x-amz-date", b!"20130524T000000Z")],
+    body := [], bodyOnce := true, contentLength := none, decodedContentLength := none }
+
+example : orderedHeaders exampleCtx.hs = some exampleCtx.hs ∧ wfHeaderAuth exampleCtx exampleCtx.hs = true := by decide
 example : wf { exampleReq with signed := [b!"host", b!"x-unsigned"] } = false := by decide
 example : wf { exampleReq with qs := [(b!"prefix", b!"c"), (b!"prefix", b!"a/b")] } = false := by decide
 
